@@ -18,7 +18,7 @@ def field_meta(ch, carrier, salt):
     if ch == 'i':
         return IGN[salt % len(IGN)].format(T=carrier)
     if ch == 'm':
-        return '%s(method(eq_asym))' % carrier
+        return ['%s(method(eq_asym))', '%s(ignore = false, method(eq_asym))', '%s(method(eq_asym), ignore(false))'][salt % 3] % carrier
     if ch == 'l':
         return '%s(method = "eq_par")' % carrier if salt % 2 else '%s(method(eq_par))' % carrier
     if ch == 'x':
